@@ -799,16 +799,31 @@ def history_job(job):
         return None, 'exception: ' + traceback.format_exc()[-1500:], []
     verdicts = judge(cfgs, strip, info, _TOK[0], _TOK[1])
     if extra.get('sections'):
-        # <channel>_syslog: the lines of the channel's output, and only those, prefixed with the program name
+        # <channel>_syslog: the configured log can be syslog.  SyslogHandler sends every logged chunk line by
+        # line, each prefixed with the program name: the recorded messages of a channel, prefix removed and
+        # concatenated in order, must be the text that channel logged (newlines aside), unaltered; a channel
+        # without syslog must not appear.  (The recorder stands in for the syslog module: nothing is sent out.)
+        import c08_disp
         for i, sec in enumerate(extra['sections']):
+            prefix = 'proc%d ' % i
+            lines = info['syslog']
+            for l in lines:
+                if not isinstance(l, str) or not l.startswith(prefix):
+                    verdicts.append((i, 'stdout', 'wrong: syslog message %r does not start with the program name' % (l,)))
+                    break
+            inc = info['written'][i][-1] if info['written'][i] else {'stdout': b'', 'stderr': b''}
+            caps = {'stdout': cfgs[i][1], 'stderr': cfgs[i][2]}
             for chan, mark in (('stdout', 'OUT'), ('stderr', 'ERR')):
-                on = sec[chan]['syslog'] and not (chan == 'stderr' and sec['redirect'])
-                seen = any(mark in l for l in info['syslog'])
                 if sec['redirect'] and chan == 'stderr':
                     continue
-                if on != seen and not (sec['redirect'] and sec['stdout']['syslog']):
-                    verdicts.append((i, chan, 'wrong: %s_syslog is %s but syslog %s this channel\'s output'
-                                     % (chan, on, 'received' if seen else 'did not receive')))
+                on = sec[chan]['syslog']
+                mine = [l for l in lines if (True if sec['redirect'] else mark in l)]
+                got = ''.join(l[len(prefix):] for l in mine)
+                logged = c08_disp.split_ref(inc[chan], _TOK[0], _TOK[1], caps[chan])[0]
+                want = logged.replace(b'\n', b'').decode('utf-8') if on else ''
+                if got != want:
+                    verdicts.append((i, chan, 'wrong: %s_syslog=%s: syslog received %r for this channel, expected the logged text %r'
+                                     % (chan, 'true' if on else 'false', got, want)))
     return trace, None, verdicts
 
 
